@@ -1,6 +1,7 @@
 #!/bin/sh
 # usage: try_seed.sh <patch.diff> <check id>...   -- applies a seeded change to /repo, runs quick checks, reverts
 P=$1; shift
+export VERIF_EVIDENCE_DIR=/tmp/seed_evidence
 cd /repo && git apply "$P" || { echo "patch does not apply"; exit 2; }
 for id in "$@"; do
   ( cd /verif && timeout 1500 ./check $id quick > /tmp/seed_$id.log 2>&1; echo "$id exit=$? $(grep -c '^VIOLATION' /tmp/seed_$id.log) violation lines; first: $(grep -m1 'what:' /tmp/seed_$id.log | cut -c1-220)" )
